@@ -27,6 +27,7 @@ import (
 	"google.golang.org/grpc"
 	"google.golang.org/grpc/credentials"
 	"google.golang.org/grpc/credentials/insecure"
+	"google.golang.org/grpc/metadata"
 	"google.golang.org/protobuf/proto"
 )
 
@@ -92,11 +93,11 @@ func freePort() int {
 }
 
 func (w *tlsWorld) startServer(t *testing.T, rc *RunCtx, caCert []byte, nameFmt ...string) *tlsServer {
+	return w.startServerWith(t, rc, caCert, append(nameFmt, "")[0], nil)
+}
+
+func (w *tlsWorld) startServerWith(t *testing.T, rc *RunCtx, caCert []byte, nf string, adminIPs []string) *tlsServer {
 	s := NewSched(rc, SchedCfg{})
-	nf := ""
-	if len(nameFmt) > 0 {
-		nf = nameFmt[0]
-	}
 	perms := map[string][]*checker.Permissions{
 		"client-test01": {{Path: "Wallet 1", Operations: []string{"All"}}, {Path: "Wallet 3", Operations: []string{"All"}}},
 		"client-test02": {{Path: "Wallet 2", Operations: []string{"All"}}},
@@ -104,7 +105,7 @@ func (w *tlsWorld) startServer(t *testing.T, rc *RunCtx, caCert []byte, nameFmt 
 	}
 	w1 := WalletSpec{Name: "Wallet 1", Kind: "nd", Accounts: []string{"Account 0", "Account 1"}}
 	w2 := WalletSpec{Name: "Wallet 2", Kind: "nd", Accounts: []string{"Account 0", "Account 1"}}
-	c := NewCluster(t, rc, s, ClusterCfg{IDs: []uint64{1, 2, 3}, Perms: perms, NameFmt: nf, Specs: []WalletSpec{w1, w2, {Name: "Wallet 3", Kind: "distributed"}}})
+	c := NewCluster(t, rc, s, ClusterCfg{IDs: []uint64{1, 2, 3}, Perms: perms, NameFmt: nf, AdminIPs: adminIPs, Specs: []WalletSpec{w1, w2, {Name: "Wallet 3", Kind: "distributed"}}})
 	// Peer names as in the repository's test certificates.
 	n := c.Nodes[0]
 	port := freePort()
@@ -564,8 +565,124 @@ func runPeerEdge(t *testing.T, rc *RunCtx) {
 	_, _ = pb.NewDKGClient(peer).Abort(ctx, &pb.AbortRequest{Account: account})
 }
 
+// --- C05 at the real edge ---------------------------------------------------------------------------
+
+var (
+	srcEdgeOnce    sync.Once
+	srcEdgeServers []*tlsServer
+	srcEdgeLists   = [][]string{{}, {"127.0.0.2"}, {"127.0.0.1", "127.0.0.3"}}
+)
+
+// runSourceEdge is the real-edge layer of C05: the source address of a request is what the TCP connection says,
+// whatever the caller writes into request metadata.  Real gRPC/TLS servers with different administrator lists;
+// the (genuine, permitted) client binds its end of the connection to different loopback addresses and sends a
+// generic signing request under the voluntary-exit domain type, with or without forwarding headers naming a
+// listed address.
+func runSourceEdge(t *testing.T, rc *RunCtx) {
+	InitBLS()
+	w := getTLSWorld(t, rc)
+	srcEdgeOnce.Do(func() {
+		setupRC := &RunCtx{Property: "C05", Ch: NewSeedChoice(1), Stats: NewStats()}
+		for _, l := range srcEdgeLists {
+			srcEdgeServers = append(srcEdgeServers, w.startServerWith(t, setupRC, resources.CACrt, "", append([]string{}, l...)))
+		}
+	})
+	sources := []string{"127.0.0.1", "127.0.0.2", "127.0.0.3", "127.0.0.20"}
+	spoofs := []string{"", "listed"}
+	endpoints := []string{"Sign", "Multisign"}
+	base, _ := strconv.ParseUint(rc.Param("_seed_base", "0"), 10, 64)
+	idx := int(rc.Seed - base)
+	total := len(srcEdgeLists) * len(sources) * len(spoofs) * len(endpoints)
+	if idx >= total {
+		rc.Stats.Inc("matrix_padding_runs", 1)
+		return
+	}
+	if idx == 0 {
+		rc.Stats.Inc("edge_total", int64(total))
+	}
+	rc.Stats.Inc("edge_cases", 1)
+	li := idx % len(srcEdgeLists)
+	src := sources[(idx/len(srcEdgeLists))%len(sources)]
+	spoof := spoofs[(idx/(len(srcEdgeLists)*len(sources)))%len(spoofs)]
+	ep := endpoints[(idx/(len(srcEdgeLists)*len(sources)*len(spoofs)))%len(endpoints)]
+	admin := srcEdgeLists[li]
+	srv := srcEdgeServers[li]
+	name := fmt.Sprintf("source-edge/admin=%v/from=%s/headers=%s/%s", admin, src, spoof, ep)
+	rc.Stats.Seen("cases", name)
+	rc.Sample = map[string]any{"case": name, "table_size": total}
+	pool := x509.NewCertPool()
+	pool.AppendCertsFromPEM(resources.CACrt)
+	crt, err := tls.X509KeyPair(resources.ClientTest01Crt, resources.ClientTest01Key)
+	if err != nil {
+		t.Fatalf("pair: %v", err)
+	}
+	cfg := &tls.Config{RootCAs: pool, ServerName: "signer-test01", MinVersion: tls.VersionTLS13, Certificates: []tls.Certificate{crt}}
+	dialer := func(ctx context.Context, addr string) (net.Conn, error) {
+		d := net.Dialer{LocalAddr: &net.TCPAddr{IP: net.ParseIP(src)}}
+		return d.DialContext(ctx, "tcp", addr)
+	}
+	cc, err := grpc.NewClient("passthrough:///"+srv.addr, grpc.WithTransportCredentials(credentials.NewTLS(cfg)), grpc.WithContextDialer(dialer))
+	if err != nil {
+		rc.Violate("HARNESS", "dial", err.Error(), 0)
+		return
+	}
+	defer cc.Close()
+	ctx, cancel := context.WithTimeout(context.Background(), 10*time.Second)
+	defer cancel()
+	if spoof != "" {
+		claim := "10.0.0.1"
+		if len(admin) > 0 {
+			claim = admin[0]
+		}
+		ctx = metadata.AppendToOutgoingContext(ctx, "x-forwarded-for", claim, "x-real-ip", claim, "forwarded", "for="+claim, "x-envoy-external-address", claim, "x-client-ip", claim)
+	}
+	domain := MkDomain(DomExit, uint64(idx))
+	data := h32("exit", idx, rc.Seed)
+	signed := false
+	cl := pb.NewSignerClient(cc)
+	if ep == "Sign" {
+		r, err := cl.Sign(ctx, &pb.SignRequest{Id: &pb.SignRequest_Account{Account: "Wallet 1/Account 0"}, Data: data, Domain: domain})
+		if err != nil {
+			rc.Stats.Inc("edge_transport_errors", 1)
+			rc.Logf("%s: %v", name, err)
+			return
+		}
+		signed = r.GetState() == pb.ResponseState_SUCCEEDED && len(r.GetSignature()) > 0
+	} else {
+		r, err := cl.Multisign(ctx, &pb.MultisignRequest{Requests: []*pb.SignRequest{
+			{Id: &pb.SignRequest_Account{Account: "Wallet 1/Account 0"}, Data: data, Domain: domain},
+			{Id: &pb.SignRequest_Account{Account: "Wallet 1/Account 1"}, Data: data, Domain: MkDomain([4]byte{7, 0, 0, 0}, 1)}}})
+		if err != nil {
+			rc.Stats.Inc("edge_transport_errors", 1)
+			rc.Logf("%s: %v", name, err)
+			return
+		}
+		if len(r.GetResponses()) > 0 {
+			signed = r.GetResponses()[0].GetState() == pb.ResponseState_SUCCEEDED && len(r.GetResponses()[0].GetSignature()) > 0
+		}
+	}
+	listed := false
+	for _, a := range admin {
+		if a == src {
+			listed = true
+		}
+	}
+	rc.Logf("%s -> signed=%v listed=%v", name, signed, listed)
+	switch {
+	case signed && !listed:
+		rc.Violate("C05", "exit-signed-for-unlisted-source", fmt.Sprintf("%s: a voluntary-exit signature was released to a connection from %s, which is not in the administrator list %v", name, src, admin), 0)
+	case signed:
+		rc.Stats.Inc("edge_exit_signed_for_listed_source", 1)
+	case listed:
+		rc.Stats.Inc("edge_exit_refused_for_listed_source", 1)
+	default:
+		rc.Stats.Inc("edge_exit_refused_for_unlisted_source", 1)
+	}
+}
+
 func init() {
 	noBubble["C16:tls"] = true
+	noBubble["C05:edge"] = true
 	propRunners["C19"] = runTLS
 	noBubble["C19"] = true
 }
